@@ -55,6 +55,7 @@ func c17Sites(r *wk.Rand, s *gen.Shape, raw any, env *gen.Env, path, chain []str
 		anySite(map[any]any{int64(8443): struct{}{}, int64(1): "x"}, "8443")
 		anySite([]any{"a", map[string]any{"k": nil}}, "1", "k")
 		anySite(map[string]any{"outer": map[any]any{int64(-7): []any{nil}}}, "outer", "-7", "0")
+		anySite(map[string]any{"big": []any{int64(1), uint64(1) << 63}}, "big", "1") // a number "any" cannot hold
 	case gen.KInt:
 		leaf("wrong-type", "not-a-number", true)
 		leaf("wrong-type", []any{}, true)
@@ -295,6 +296,12 @@ func c17Sites(r *wk.Rand, s *gen.Shape, raw any, env *gen.Env, path, chain []str
 		m, ok := raw.(map[string]any)
 		if !ok {
 			return nil
+		}
+		if len(path) > 0 {
+			// the value of the one-of as a whole: null, a scalar, a list
+			leaf("wrong-type", nil, false)
+			leaf("wrong-type", "not-a-map", false)
+			leaf("wrong-type", []any{}, false)
 		}
 		for _, mem := range s.Members {
 			if (s.Kind == gen.KOneOfStr && m[s.Disc] == mem.KeyS) || (s.Kind == gen.KOneOfInt && m[s.Disc] == mem.KeyI) {
